@@ -452,9 +452,9 @@ def check_explain_between(case):
             ds[v] = [float(x) for x in tr[v]]
         return ds
     try:
-        spec = build('dt_off', text, vs, **kw)
+        spec = build('dt_off', text, vs, dedicated=True, **kw)
         r1 = copy.deepcopy(spec.evaluate(data(case['trace'])))
-        rb = copy.deepcopy(build('dt_off', text, vs, **kw).evaluate(data(case['other'])))
+        rb = copy.deepcopy(build('dt_off', text, vs, dedicated=True, **kw).evaluate(data(case['other'])))
     except Exception as e:  # noqa
         return DISCARD('raises(C17):' + type(e).__name__, labels)
     explained = 0
